@@ -45,7 +45,8 @@ from harness.common import exc_name, jdump
 PID = "C19"
 TITLE = "Output files always match the current data and nothing unchanged is redone"
 LEAN_MODULES = ["LenaModel.Props.C19"]
-LEAN_SOURCES = ["LenaModel/Model/C19.lean", "LenaModel/Lemmas/C19.lean", "LenaModel/Props/C19.lean"]
+LEAN_SOURCES = ["LenaModel/Model/C19.lean", "LenaModel/Model/C19Spec.lean", "LenaModel/Lemmas/C19.lean",
+                "LenaModel/Props/C19.lean"]
 DRIVER = "drivers/C19.lean"
 THEOREMS = [
     "Lena.C19.run_fresh_partial",
@@ -87,6 +88,13 @@ THEOREMS = [
     "Lena.C19.object_history_eq_fresh",
     "Lena.C19.write_not_writable_passes",
     "Lena.C19.write_writer_changed",
+    "Lena.C19.sourceClosedB_iff",
+    "Lena.C19.unitFreshB_iff",
+    "Lena.C19.specSeparate_refines",
+    "Lena.C19.specRun_refines",
+    "Lena.C19.fresh_when_latex_overwrites",
+    "Lena.C19.runScalarPlot_eq_runPlot",
+    "Lena.C19.mapGroupGuard_ok",
 ]
 CASE_TIMEOUT = 20
 
